@@ -76,7 +76,9 @@ def structures(count, seed):
     # many regions (two-digit region indices inside the MILP): a bulged long-range knot enclosing nine hairpins
     # ... and a chain of four stems of which the first and the last two cross (regions 0-3, 1-2, 2-3): the walk of
     # the conflict graph must not depend on the order in which its edges were found
-    for db in ("(.(." + "(...)" * 9 + ".[.[.).).].]", "((.((.[[.)).{{.]].)).}}"):
+    # ... and an H-type knot A x B, a hairpin C nested in B, a stem D crossing B and C but not A (first come, first
+    # served must look at ALL earlier crossing stems, whatever the order of their levels)
+    for db in ("(.(." + "(...)" * 9 + ".[.[.).).].]", "((.((.[[.)).{{.]].)).}}", "((..[[..)).((.{{..))........]]...}}."):
         stacks, pairs = {}, []
         for i, ch in enumerate(db, 1):
             if ch in "([{":
